@@ -14,19 +14,19 @@ CHECKS = {
     ),
     "C02": (
         "exhaustive enumeration of the operator x operand-type matrix over boundary values, of all operator pairs/triples in all tree shapes and parenthesisations, and of all short literal spellings, executed on the real Operation/Function entry points, parser and interpreter against a reference evaluator",
-        "Every binary/unary operator is applied to every ordered pair of 44 boundary values of the four types (result type = returned variant, compared exactly; through PRINT with two type probes); every ordered pair (and triple) of operators is evaluated in every tree shape with minimal and full parentheses; every literal spelling up to 6/7 characters that the manual classifies is checked in the parsed statement; 14 numeric functions and assignment to each variable type. Exhaustive within these bounds.",
+        "Every binary/unary operator is applied to every ordered pair of 44 boundary values of the four types (result type = returned variant, compared exactly; through PRINT with two type probes); every ordered pair (and triple) of operators is evaluated in every tree shape with minimal and full parentheses; every literal spelling up to 6/7 characters that the manual classifies, and structured long spellings (1-9 mantissa digits x point position x 14 exponent spellings x suffix), are checked in the parsed statement; 14 numeric functions and assignment to each variable type. Exhaustive within these bounds.",
         "Reference evaluator refmodel/value.rs (manual chapter 1). Exactly rounded operations are compared bit for bit, ^ and transcendental functions within 600 ulp / underflow to zero accepted; comparisons of floats nearer than 4 epsilon are skipped.",
         "DESIGN.md §3 C02",
     ),
     "C03": (
         "exhaustive enumeration of all short strings / token sequences / single-token corpus mutants / length-limit shapes entered into the real interpreter under a watchdog and subprocess isolation, plus explicit-state search of the UI calling protocol (enter, execute quanta, interrupt, listing snapshots, loads) with a full-state digest",
-        "Every input of the stated bounded families is entered as a direct line, a stored line and a stored line followed by RUN; every history of the protocol machine up to depth 6 (quick) / 8 (thorough) is executed. On each: no panic or abort, every call returns (20 s watchdog, hangs and crashes attributed to one case by the parent process), and after at most one interrupt the interpreter is stopped and PRINT 1 works. Exhaustive within the bounds.",
+        "Every input of the stated bounded families is entered as a direct line, a stored line and a stored line followed by RUN; stored multi-byte lines are followed by every program-level command; every short reply over a multi-byte alphabet is given to multi-variable INPUT statements and INKEY$; cursor operations are run at columns up to 1024 of an unterminated output line; every history of the protocol machine (from the empty interpreter and from a stored program, interrupts also while input is awaited) up to depth 6 (quick) / 8 (thorough) is executed. On each: no panic or abort, every call returns (20 s watchdog, hangs and crashes attributed to one case by the parent process), and after at most one interrupt the interpreter is stopped and PRINT 1 works. Exhaustive within the bounds.",
         "Built with debug assertions and overflow checks on (a violated debug_assert counts as a panic). Inputs longer than the enumerated lengths are covered only by the periodic length-limit shapes. The terminal front end itself is not executed.",
         "DESIGN.md §3 C03",
     ),
     "C04": (
         "explicit-state breadth-first search over edit histories on the real Runtime (states deduplicated by a full-state digest, plus an undeduplicated cross-check), each RUN / resume transition compared with a fresh interpreter fed get_listing()",
-        "All histories up to depth 4 (quick) / 5 (thorough) over 47 editing, running and resuming actions, from the empty interpreter and from a program stopped inside a subroutine, are executed; on every RUN/RUN n, and on CONT/RETURN/NEXT/FN call right after an edit, the transcript must equal that of a freshly started interpreter holding the current listing; non-editing direct statements must leave the listing unchanged. Exhaustive within the depth bound.",
+        "All histories up to depth 4 (quick) / 5 (thorough) over 53 editing, running and resuming actions (line bodies include DELETE and NEW, so programs edit themselves), from the empty interpreter and from a program stopped inside a subroutine, are executed; on every RUN/RUN n, and on CONT/RETURN/NEXT/FN call right after an edit (typed or made by the running program), the transcript must equal that of a freshly started interpreter holding the current listing; non-editing direct statements must leave the listing unchanged. Exhaustive within the depth bound.",
         "State identity relies on hook verif_digest covering every future-relevant field; verdicts use only the public API. Histories deeper than the bound are not explored.",
         "DESIGN.md §3 C04",
     ),
@@ -44,13 +44,13 @@ CHECKS = {
     ),
     "C11": (
         "exhaustive enumeration of print lists of a bounded grammar in sequences of up to three PRINT statements (optionally interleaved with INPUT, error, CLS, LIST, STOP, trace brackets, loops) against a reference cursor model, plus exhaustive / structured sweeps of number formatting",
-        "Every print list of up to 3 items over 20 items x 3 separators x 3 trailings, every pair and triple of shorter statements, each followed by a probe (POS, comma zone, TAB) are executed and compared with the cursor model; all 65536 Integers, every sign/exponent of f32 with 81 mantissa patterns (thorough: all 2^32 f32 values) and a structured f64 set are formatted and must read back exactly with the minimal digit count.",
+        "Every print list of up to 3 items over 20 items x 3 separators x 3 trailings, every pair and triple of shorter statements, each followed by a probe (POS, comma zone, TAB), and 15 cursor operations at 20 columns up to 512 of an unterminated line, are executed and compared with the cursor model; all 65536 Integers, every sign/exponent of f32 with 81 mantissa patterns (thorough: all 2^32 f32 values) and a structured f64 set are formatted and must read back exactly with the minimal digit count.",
         "Reference refmodel/print.rs and the PRINT part of refmodel/interp.rs; positional vs E notation is not prescribed.",
         "DESIGN.md §3 C11",
     ),
     "C12": (
         "explicit-state breadth-first search over session prefixes (runs to completion / error / STOP / interrupted after k instructions, direct statements) for a family of programs, RUN and CLEAR/NEW+probes compared with a fresh interpreter",
-        "For each of 12 programs every history up to 4 (quick) / 6 (thorough) actions is executed; every RUN must equal RUN in a fresh interpreter with the same listing and CLEAR / NEW followed by 9 probe lines must equal the probes in a fresh interpreter. Exhaustive within the depth bound and the program family.",
+        "For each of 12 programs every history up to 4 (quick) / 6 (thorough) actions from 26 (direct statements incl. ones that fail to compile or link, edits, interrupted runs) is executed; every RUN must equal RUN in a fresh interpreter with the current listing and CLEAR / NEW followed by 9 probe lines must equal the probes in a fresh interpreter. Exhaustive within the depth bound and the program family.",
         "Differential oracle (implementation from a history vs implementation from scratch); state identity by verif_digest; RND and TRON excluded as documented.",
         "DESIGN.md §3 C12",
     ),
@@ -80,7 +80,7 @@ CHECKS = {
     ),
     "C17": (
         "exhaustive enumeration of INPUT statement forms x all reply strings up to a bounded length, executed inside a loop on the real interpreter against the reference reply parser",
-        "25 INPUT statements x every reply of length <=4 (thorough 5) over a 12-symbol alphabet, plus hand-picked and over-long replies, inside FOR..NEXT with all targets printed: prompts, capitalisation flag, REDO FROM START, stored values and loop completion must equal the reference.",
+        "25 INPUT statements x every reply of length <=4 (thorough 5) over a 13-symbol alphabet (one multi-byte character), plus hand-picked and over-long replies, inside FOR..NEXT with all targets printed: prompts, capitalisation flag, REDO FROM START, stored values and loop completion must equal the reference.",
         "Reference refmodel/input.rs; values whose printed notation is not fixed are skipped.",
         "DESIGN.md §3 C17",
     ),
@@ -116,7 +116,7 @@ CHECKS = {
     ),
     "C07": (
         "exhaustive enumeration of all argument tuples of a boundary universe for every string function, operator and MID$ assignment, through the public entry points and through the interpreter, against a Vec<char> reference",
-        "All tuples over 12 boundary strings (ASCII, multi-byte, empty, 255 long) plus all strings up to length 3 (thorough 5) over {a,b,e-acute}, 14 positions/lengths, 12 patterns, 12 character codes and 40 VAL inputs are evaluated for LEN LEFT$ RIGHT$ MID$ INSTR ASC CHR$ STRING$ SPC STR$ VAL HEX$ OCT$, +, six comparisons and MID$ assignment; in-domain results must equal the reference exactly, out-of-domain arguments must give a BASIC error, stores above 255 characters STRING TOO LONG. Exhaustive within the universe.",
+        "All tuples over 12 boundary strings (ASCII, multi-byte, empty, 255 long) plus all strings up to length 3 (thorough 5) over {a,b,e-acute}, 14 positions/lengths, 12 patterns, 12 character codes and 40 VAL inputs are evaluated for LEN LEFT$ RIGHT$ MID$ INSTR ASC CHR$ STRING$ SPC STR$ VAL HEX$ OCT$, +, six comparisons and MID$ assignment; in-domain results must equal the reference exactly, out-of-domain arguments must give a BASIC error; the 255-character store limit is checked for 3 kinds of target x 9 previous contents x 14 new lengths x 1-, 2- and 3-byte characters (STRING TOO LONG exactly when the new value has more than 255 characters, previous content kept). Exhaustive within the universe.",
         "Reference refmodel/funcs.rs; positions or counts beyond the Integer range are skipped as undefined.",
         "DESIGN.md §3 C07",
     ),
